@@ -16,6 +16,7 @@ combinator sitting there, so pipelines follow by induction (`sound_comp`).
 -/
 import HvPush.Lemmas.Drain
 import HvPush.Lemmas.Driver
+import HvPush.Lemmas.Route
 namespace HvPush
 open Prog
 
@@ -623,6 +624,79 @@ theorem collect_sound (k0 : List α) {up : List (Ev α)} {down : List (PEv α)} 
     rcases List.mem_cons.1 he with rfl | he
     · simp
     · exact h3 e he
+
+/-! ## Fanout / Unzip / DemuxVar (independent answer patterns on every port) -/
+
+theorem aux_fanout_eq_route : (fanoutC : Comb Unit α α) = routeC 2 (fun x _ => some x) := by
+  simp [fanoutC, routeC, readyAll, finAll, sendAll, Prog.bind]
+
+theorem aux_unzip_eq_route :
+    (unzipC : Comb Unit (β × β) β) = routeC 2 (fun x j => if j = 0 then some x.1 else some x.2) := by
+  simp [unzipC, routeC, readyAll, finAll, sendAll, Prog.bind]
+
+theorem aux_sendAll_demux (x : Nat × β) (i n : Nat) :
+    sendAll (fun (x : Nat × β) j => if x.1 = j then some x.2 else none) x i n =
+      if i ≤ x.1 ∧ x.1 < i + n then Prog.snd x.1 x.2 (Prog.ret ()) else Prog.ret () := by
+  induction n generalizing i with
+  | zero =>
+    have h : ¬(i ≤ x.1 ∧ x.1 < i + 0) := by omega
+    simp [sendAll, h]
+  | succ n ih =>
+    simp only [sendAll]
+    by_cases hx : x.1 = i
+    · have h1 : ¬(i + 1 ≤ x.1 ∧ x.1 < i + 1 + n) := by omega
+      have h2 : i ≤ x.1 ∧ x.1 < i + (n + 1) := by omega
+      simp [hx, ih, h1, h2]
+      omega
+    · have h1 : (i + 1 ≤ x.1 ∧ x.1 < i + 1 + n) ↔ (i ≤ x.1 ∧ x.1 < i + (n + 1)) := by omega
+      simp [hx, ih, h1]
+
+theorem aux_demux_eq_route (n : Nat) :
+    (demuxC n : Comb Unit (Nat × β) β) = routeC n (fun x j => if x.1 = j then some x.2 else none) := by
+  simp only [demuxC, routeC]
+  congr 1
+  funext _ x
+  rw [aux_sendAll_demux]
+  simp
+
+/-- `Fanout`: both downstreams, whatever their (independent) pending patterns, see contract-honouring
+    traces and each receives every item, in order. -/
+theorem fanout_sound : (fanoutC : Comb Unit α α).Sound () [0, 1] (fun _ ins outs => outs = ins) := by
+  rw [aux_fanout_eq_route]
+  have := route_sound 2 (fun (x : α) (_ : Nat) => some x)
+  simpa [List.range, List.range.loop] using this
+
+/-- `Unzip`: port 0 receives the first components, port 1 the second components. -/
+theorem unzip_sound : (unzipC : Comb Unit (β × β) β).Sound () [0, 1]
+    (fun j ins outs => outs = ins.map (fun x => if j = 0 then x.1 else x.2)) := by
+  rw [aux_unzip_eq_route]
+  intro up down k' ht hok
+  obtain ⟨h1, h2⟩ := route_sound 2 (fun (x : β × β) j => if j = 0 then some x.1 else some x.2) up down k' ht hok
+  refine ⟨h1, fun hc j hj => ?_⟩
+  have hj' : j ∈ List.range 2 := by
+    simp only [List.mem_cons, List.mem_nil_iff, or_false] at hj
+    rcases hj with rfl | rfl <;> simp
+  obtain ⟨g1, g2⟩ := h2 hc j hj'
+  refine ⟨g1, ?_⟩
+  rw [g2]
+  by_cases h0 : j = 0 <;> simp [h0]
+
+/-- `DemuxVar` over `n` pushes: port `j` receives exactly the values tagged `j`, in order; all
+    ports are readied before every item and finalized at the end (indices `≥ n` panic in the real
+    code and are excluded by `hidx` through the spec: they are delivered nowhere). -/
+theorem demux_sound (n : Nat) : (demuxC n : Comb Unit (Nat × β) β).Sound () (List.range n)
+    (fun j ins outs => outs = (ins.filter (fun x => x.1 = j)).map (·.2)) := by
+  rw [aux_demux_eq_route]
+  intro up down k' ht hok
+  obtain ⟨h1, h2⟩ := route_sound n (fun (x : Nat × β) j => if x.1 = j then some x.2 else none) up down k' ht hok
+  refine ⟨h1, fun hc j hj => ?_⟩
+  obtain ⟨g1, g2⟩ := h2 hc j hj
+  refine ⟨g1, ?_⟩
+  rw [g2]
+  generalize sends up = l
+  induction l with
+  | nil => rfl
+  | cons x xs ih => by_cases hx : x.1 = j <;> simp [List.filterMap_cons, List.filter_cons, hx, ih]
 
 /-! ## The standard driver `SendPush::poll` (= `SendSink::poll` over `SinkCompat`) -/
 
